@@ -166,7 +166,7 @@ fn c04_localcid_retire_any_seq_n3_slid() {
 #[kani::unwind(6)]
 #[kani::stub(alloc::fmt::format, stub_fmt)]
 #[kani::stub(crate::token::ResetToken::random_gen, stub_token)]
-fn c04_localcid_retire_unissued_error_kind() {
+fn c04_p_localcid_retire_unissued_error_kind() {
     retire_step::<2>(0, true);
 }
 
@@ -230,7 +230,7 @@ fn c04_localcid_limit_param_validation() {
 #[kani::unwind(6)]
 #[kani::stub(alloc::fmt::format, stub_fmt)]
 #[kani::stub(crate::token::ResetToken::random_gen, stub_token)]
-fn c04_localcid_set_limit_issue_count_bounded() {
+fn c04_p_localcid_set_limit_issue_count_bounded() {
     let l: u64 = kani::any();
     kani::assume(l < M62);
     let r = ParameterId::ActiveConnectionIdLimit.validate(&ParameterValue::VarInt(VarInt::from_u64(l).unwrap()));
